@@ -552,12 +552,12 @@ def assets_cases(r: random.Random, n: int) -> Cases:
         for tx in (text, mutate(r, text, "0123456789 -:\n"), sep.join(p2)):
             for strict in (False, True):
                 cs.add("adatetime.parse", [tx, wopt(fmt), "1" if strict else "0"],
-                       lambda tx=tx, fmt=fmt, strict=strict: "ok:" + AD.parse(tx, fmt, strict=strict).value.strftime("%Y-%m-%d %H:%M:%S.%f"))
+                       lambda tx=tx, fmt=fmt, strict=strict: "ok:" + value_text("datetime", AD.parse(tx, fmt, strict=strict).value))
     for tx, fm in [("0305", "%m%d"), ("20230230", "%Y%m%d"), ("", "%n"), ("12\n", "%n"), ("", "%b"), ("00000101", "%b"), ("0000", "%Y"), ("25", "%H")]:
         for strict in (False, True):
             if fm in ("%n", "%b") and tx in ("", "12\n", "00000101"):
                 cs.add("aserial.parse", [tx, wopt(fm), "1" if strict else "0"], lambda tx=tx, fm=fm, strict=strict: "ok:" + str(AS.parse(tx, fm, strict=strict).value))
             else:
                 cs.add("adatetime.parse", [tx, wopt(fm), "1" if strict else "0"],
-                       lambda tx=tx, fm=fm, strict=strict: "ok:" + AD.parse(tx, fm, strict=strict).value.strftime("%Y-%m-%d %H:%M:%S.%f"))
+                       lambda tx=tx, fm=fm, strict=strict: "ok:" + value_text("datetime", AD.parse(tx, fm, strict=strict).value))
     return cs
